@@ -128,6 +128,11 @@ int main(int argc, char **argv) {
       if (u2) munmap(m + (size_t)u1 * 4096, 4096);
       mprotect(m, (size_t)u1 * 4096, perms_of(a));
       A[NA].p = m; A[NA].pages = u1; fl += snprintf(facts + fl, sizeof facts - fl, " anon%d=%lx", NA, (unsigned long)m); NA++;
+    } else if (sscanf(line, "filex %511s %u %u %63s", b, &u1, &u2, a) == 4) {
+      /* path given in hex (may contain blanks / non-ASCII) */
+      char path[256]; unhex(b, path, sizeof path);
+      int fd = open(path, O_RDONLY); void *m = mmap(0, (size_t)u2 * 4096, perms_of(a), MAP_PRIVATE, fd, (off_t)u1);
+      close(fd); fl += snprintf(facts + fl, sizeof facts - fl, " filemap=%lx", (unsigned long)m);
     } else if (sscanf(line, "file %511s %u %u %63s", b, &u1, &u2, a) == 4) {
       int fd = open(b, O_RDONLY); void *m = mmap(0, (size_t)u2 * 4096, perms_of(a), MAP_PRIVATE, fd, (off_t)u1);
       close(fd); fl += snprintf(facts + fl, sizeof facts - fl, " file=%lx", (unsigned long)m);
